@@ -25,7 +25,7 @@ theorem C02_rack_delivered_time (s : St) (env : Env) (found : Bool) (nt : Int) (
       if found = true ∧ s.deliveredTime < nt then nt else s.deliveredTime := by
   rw [onRackAfterSACK_deliveredTime]
   simp only [beforeMark, rackReoWnd_deliveredTime]
-  unfold rackDelivered rack_newerDelivered rack_hwAdvances
+  unfold rackDelivered rackNewer rackHw rack_newerDelivered rack_hwAdvances
   cases found
   · simp
   · by_cases h : s.deliveredTime < nt
@@ -155,7 +155,7 @@ theorem C02_tlr_not_forever (s : St) (budget est : Int) (b : Int × Bool) (p : B
     (s.tlrActive = true → sna32GTE s.cumAck s.tlrEndTSN = true → tlrAllow (tlrMaybeFinish s p).tlrActive b est = (true, b)) := by
   refine ⟨tlrAllow_first _ _ _, fun ha hd => ?_⟩
   have : (tlrMaybeFinish s p).tlrActive = false := by
-    unfold tlrMaybeFinish tlrFinish_leavesFirst tlrFinish_done tlrFinish_clean tlrFinish_resetsBurst
+    unfold tlrMaybeFinish tlrEnd tlrScore tlrLeaveFirst tlrFinish_leavesFirst tlrFinish_done tlrFinish_clean tlrFinish_resetsBurst
     simp only [ha, Bool.not_true, Bool.false_eq_true, ↓reduceIte]
     split <;> simp_all
   exact tlrAllow_free_cases _ _ _ (Or.inl this)
